@@ -93,6 +93,10 @@ def track(ver, case, obs, want):
         for (k, pid) in acks:
             if not prev_open or closed_expected:
                 continue
+            pid %= 65536                       # the harness writes the id as a u16
+            if pid == 0:
+                good_peer = False              # not a well-formed packet id: the codec rejects it, no
+                continue                       # expectation is derived from it
             if role == 0 and k in (SUBACK, UNSUBACK):
                 continue                       # a server ignores SUBACK / UNSUBACK
             if out and out[0][0] == pid and out[0][1] == k:
